@@ -1,6 +1,5 @@
 (** C09 -- the abstract store of the property (reference semantics), the rendering of an
-    abstract operation as the token list the shell sees, and the decidable classes of
-    operations on which cicada is known to deviate.  Definitions only. *)
+    abstract operation as the token list the shell sees.  Definitions only. *)
 From Cicada Require Import Base.Chars Model.Vars.
 Local Open Scope N_scope.
 
@@ -90,28 +89,6 @@ Definition spec_child (a : ast) (ps : alist) (m : str) : option str :=
   end.
 
 (* ---- read: cut the line at every separator; the last name gets the rest verbatim *)
-(** k = number of names still to serve (k >= 1 for a useful call); [None] = line exhausted *)
-Fixpoint cut_fields (seps : str) (k : nat) (s : option str) : list str :=
-  match k with
-  | O => []
-  | S O => [match s with Some x => x | None => [] end]
-  | S k' => match s with
-            | None => [] :: cut_fields seps k' None
-            | Some x => let (f, o) := break_sep seps x in f :: cut_fields seps k' o
-            end
-  end.
-
-(** the text left for the last of k names *)
-Fixpoint rest_after (seps : str) (k : nat) (s : option str) : option str :=
-  match k with
-  | O => s
-  | S O => s
-  | S k' => match s with
-            | None => None
-            | Some x => rest_after seps k' (snd (break_sep seps x))
-            end
-  end.
-
 (** the value of IFS in effect: per-command, else the store; empty or unset = default *)
 Definition spec_ifs (a : ast) (ps : alist) : str :=
   match aget ps s_IFS with
@@ -144,14 +121,10 @@ Definition read_names (names : list str) : list str :=
 
 Definition input_line (line : str) : str := trim (line ++ [c_nl]).
 
-(** Before the repair of read only the weakest reading of the property text is demanded (every
-    separator character cuts, remainder verbatim: [cut_fields]); with it, the POSIX reading. *)
-Definition spec_read (fx : fixes) (a : ast) (ps : alist) (names : list str) (line : str) : ast :=
+Definition spec_read (a : ast) (ps : alist) (names : list str) (line : str) : ast :=
   let ns := read_names names in
   spec_assign a (combine ns
-    (if fx_read fx
-     then cut_runs (is_empty (spec_ifs a ps)) (spec_seps a ps) (length ns) (Some (input_line line))
-     else cut_fields (spec_seps a ps) (length ns) (Some (input_line line)))).
+    (cut_runs (is_empty (spec_ifs a ps)) (spec_seps a ps) (length ns) (Some (input_line line)))).
 
 (* ---- cd *)
 Definition join_path (cur p : str) : str :=
@@ -196,14 +169,14 @@ Inductive sout :=
 | SChild (argv : list str) (view : str -> option str) (dir : str)
 | SVal (v : option str).
 
-Definition spec_step (fx : fixes) (w : world) (a : ast) (o : op) : ast * sout :=
+Definition spec_step (w : world) (a : ast) (o : op) : ast * sout :=
   match o with
   | Assign ps => (spec_assign a (map asg_pair ps), SStatus true)
   | Prefixed ps prog args =>
       (a, SChild (prog :: map snd args) (spec_child a (map asg_pair ps)) (acwd a))
   | Export ps => (spec_export a (map asg_pair ps), SStatus true)
   | Unset n => (spec_unset1 a n, SStatus true)
-  | Read ps names line => (spec_read fx a (map asg_pair ps) names line, SStatus true)
+  | Read ps names line => (spec_read a (map asg_pair ps) names line, SStatus true)
   | Cd arg => let (a', ok) := spec_cd w a arg in (a', SStatus ok)
   | Ref n => (a, SVal (match vget a n with Some (v, _) => Some v | None => None end))
   end.
@@ -239,53 +212,18 @@ Definition wf_op (o : op) : bool :=
   | Ref _ => true
   end.
 
-(* ------------------------------------------------------------------ known deviation classes *)
-Inductive kclass :=
-| KReadIfsShadowed      (* read takes IFS from a stale shell-local value behind an exported IFS; not reachable
-                           from a fresh shell since export removes the local binding (217a8a1) *)
-| KReadRejoined.        (* the remainder is rebuilt with blanks instead of kept verbatim *)
-
-Definition known (fx : fixes) (a : ast) (o : op) : option kclass :=
-  match o with
-  | Read ps names line =>
-      let pp := map asg_pair ps in
-      let shadow :=
-        match aget pp s_IFS, vget a s_IFS with
-        | None, Some (ev, true) =>
-            match aget (ghost a) s_IFS with
-            | Some lv => negb (str_eqb lv ev)
-            | None => false
-            end
-        | _, _ => false
-        end in
-      if shadow then Some KReadIfsShadowed
-      else if fx_read fx then None
-      else
-        let seps := spec_seps a pp in
-        match rest_after seps (length (read_names names)) (Some (input_line line)) with
-        | Some r => if existsb (fun c => memb c seps && negb (c =? c_space)) r
-                    then Some KReadRejoined else None
-        | None => None
-        end
-  | _ => None
-  end.
-
-Definition is_known (fx : fixes) (a : ast) (o : op) : bool :=
-  match known fx a o with Some _ => true | None => false end.
-
-(** the specification run over a history, with the classes met on the way *)
-Fixpoint spec_hist (fx : fixes) (w : world) (a : ast) (ops : list op) : ast * list sout :=
+(* ------------------------------------------------------------------ histories *)
+Fixpoint spec_hist (w : world) (a : ast) (ops : list op) : ast * list sout :=
   match ops with
   | [] => (a, [])
-  | o :: r => let (a1, so) := spec_step fx w a o in
-              let (a2, sos) := spec_hist fx w a1 r in (a2, so :: sos)
+  | o :: r => let (a1, so) := spec_step w a o in
+              let (a2, sos) := spec_hist w a1 r in (a2, so :: sos)
   end.
 
-Fixpoint known_hist (fx : fixes) (w : world) (a : ast) (ops : list op) : bool :=
-  match ops with
-  | [] => false
-  | o :: r => is_known fx a o || known_hist fx w (fst (spec_step fx w a o)) r
-  end.
+(** State invariant of the repaired shell: an exported IFS has no stale shell-local IFS behind
+    it (export removes the local binding, 217a8a1).  [ghost] is the bookkeeping of such leftovers;
+    a fresh shell has none. *)
+Definition shadow_free (a : ast) : Prop := is_exported a s_IFS = true -> aget (ghost a) s_IFS = None.
 
 (** the abstraction function *)
 Definition abs (c : st) : ast :=
